@@ -9,7 +9,8 @@
     The alphabet has three kinds of letters:
 
     - markers, written by the harness around its own API calls for that name
-      (Add returned, Reconnect called / returned, Remove called / returned);
+      (Add / Reconnect / Remove called and returned); calls for ONE name are
+      issued one after the other (calls for different names run concurrently);
     - environment queries made by the manager together with the environment's
       answer (credentials lookup, dial, the done func of a connection, stream
       open, Send, Recv) -- the "fault script" is the sub-sequence of these;
@@ -209,8 +210,8 @@ Definition vis (c : cfg) (s : st) (e : event) : list st :=
   match e with
   (* --- markers ------------------------------------------------------- *)
   | EAddCalled =>
-      match s_add s with
-      | AddNone =>
+      match s_add s, s_rc s, s_rmc s with
+      | AddNone, RcNone, false =>
           match s_pc s with
           | PIdle =>
               (* Add inserts the target and starts retryMonitor before it returns *)
@@ -222,7 +223,7 @@ Definition vis (c : cfg) (s : st) (e : event) : list st :=
                   s_rc := s_rc s; s_hu := s_hu s; s_stale := s_stale s; s_phu := s_phu s;
                   s_add := AddDup |}]
           end
-      | _ => []
+      | _, _, _ => []
       end
   | EAdd ok =>
       match s_add s, ok with
@@ -233,13 +234,14 @@ Definition vis (c : cfg) (s : st) (e : event) : list st :=
       | _, _ => []
       end
   | EReconnectCalled =>
-      match s_rc s with
-      | RcNone => if managed s
+      match s_rc s, s_add s, s_rmc s with
+      | RcNone, AddNone, false =>
+                  if managed s
                   then [{| s_pc := s_pc s; s_rmc := s_rmc s; s_cdone := s_cdone s;
                            s_sdone := s_sdone s; s_rc := RcPending; s_hu := s_hu s;
                            s_stale := s_stale s; s_phu := s_phu s; s_add := s_add s |}]
                   else [s]
-      | _ => []
+      | _, _, _ => []
       end
   | EReconnectReturned true =>
       match s_rc s with
@@ -254,11 +256,14 @@ Definition vis (c : cfg) (s : st) (e : event) : list st :=
       | _ => []
       end
   | ERemoveCalled =>
-      if s_rmc s then []
-      else if managed s
+      match s_rmc s, s_add s, s_rc s with
+      | false, AddNone, RcNone =>
+           if managed s
            then [{| s_pc := s_pc s; s_rmc := true; s_cdone := s_cdone s; s_sdone := s_sdone s;
                     s_rc := s_rc s; s_hu := s_hu s; s_stale := s_stale s; s_phu := s_phu s; s_add := s_add s |}]
            else [s]
+      | _, _, _ => []
+      end
   | ERemoveReturned true =>
       match s_pc s with
       | PFinished =>
